@@ -175,7 +175,7 @@ Lemma hsusp_push s j e : hsusp s = Some e -> match s.(jobs) ++ [j] with j0 :: _ 
 Proof. unfold hsusp. by destruct (jobs s). Qed.
 
 Ltac solve_toks :=
-  rewrite ?toks_setstack, ?toks_setstackreg;
+  rewrite ?toks_setstack;
   rewrite ?toks_addlog, ?toks_setf, ?toks_setev, ?toks_setdw, ?toks_setdbl, ?toks_setsres;
   rewrite ?toks_addlog, ?toks_setf, ?toks_setev, ?toks_setdw, ?toks_setdbl, ?toks_setsres;
   reflexivity.
